@@ -9,10 +9,16 @@ decision logic over the wrapper's control flow, no bound on anything.
 
 Reading. "Arguments valid after defaults" is judged on `defaulted E s a`: the argument object *as the
 server decodes it* (`E.remarshal`), with defaults filled. For every argument whose numbers Go holds
-exactly, `E.remarshal` is the identity (`lossy64_exact`), and the `…_exact` forms below speak about
-the client's own JSON value. Outside that range (integers < -2^63 or ≥ 2^64 after fixes/F09; every
-integer beyond ±2^53 before it) the two differ — that is finding F9: `handler_sees_defaulted_args`
-holds only as `…_partial`, with `f9_counterexample…` as proved witnesses.
+exactly, `E.remarshal` is the identity (`lossy64_exact`: with fixes/F09 that is every value whose whole
+numbers lie in [-2^63, 2^64)), and the `…_exact`/`…_partial` forms below speak about the client's own
+JSON value. Where `E.remarshal` is not the identity the two differ — that is finding F9: on the
+unrepaired tree (`lossy53`: every integer beyond ±2^53 is rounded) the exact-equality form of
+`handler_sees_defaulted_args` is false, with `f9_counterexample_unrepaired` as the proved witness and
+`f9_repaired_exact` showing the same call exact under fixes/F09. What is still missing for the
+exact-equality form over ALL inputs after the fix: integers outside [-2^63, 2^64) are still rounded
+before validation; no Go integer type can hold them, so the typed decoder rejects them or the field is
+a float64/`any` that rounds by its own type, and the harness has never observed a difference — but
+that argument about `project` is not proved here, hence `_partial`.
 -/
 namespace TypedTool
 
@@ -83,9 +89,11 @@ theorem handler_sees_defaulted_args (E : Env S) (t : Tool S) (h : JVal → HRet)
     · simp [hv, errorOutcome] at hs
 
 /-- FULL STATEMENT (C16 as written): the handler observes exactly the client's argument object with the
-schema's defaults, `E.fill s m` — for ALL `m`.  Not provable: `E.remarshal` rounds integers that Go
-does not hold exactly (F9).  Proved part: every `m` that the server decodes exactly, through a decoder
-that is faithful on the defaulted value. -/
+schema's defaults, `E.fill s m` — for ALL `m`.  Not provable in this form: `E.remarshal` rounds integers
+that Go does not hold exactly (F9; false on the unrepaired tree, see `f9_counterexample_unrepaired`).
+Proved part: every `m` that the server decodes exactly (`hexact`; by `lossy64_exact` every `m` whose
+whole numbers lie in [-2^63, 2^64) once fixes/F09 is applied), through a decoder that is faithful on the
+defaulted value (`hfaithful`: the Go type has a member for everything the object carries). -/
 theorem handler_sees_defaulted_args_partial (E : Env S) (t : Tool S) (h : JVal → HRet) (a : Args) (m : JVal)
     (hm : argsMap a = some m) (hexact : E.remarshal m = m)
     (hfaithful : t.decodeIn (E.fill t.inSchema m) = some (E.fill t.inSchema m))
